@@ -25,8 +25,9 @@ VARIABLES i,      \* next line to consume
           cs,     \* model state of the object under observation
           pos,    \* reader: offset into the run's input
           lsum,   \* sum of the lengths returned by the run's length calls
-          wsum    \* number of bytes appended by the run's write calls
-vars == <<i, base, cs, pos, lsum, wsum>>
+          wsum,   \* number of bytes appended by the run's write calls
+          zsum    \* payload bytes the run's writes linked into the output instead of copying (zero-copy path)
+vars == <<i, base, cs, pos, lsum, wsum, zsum>>
 
 Ev == Rec[i]
 Run == Rec[base]
@@ -35,7 +36,7 @@ Buf == Run.buf
 IsLe == P = "binle"
 Has(f) == f \in DOMAIN Ev
 
-TraceInit == i = 1 /\ base = 1 /\ cs = <<>> /\ pos = 0 /\ lsum = 0 /\ wsum = 0
+TraceInit == i = 1 /\ base = 1 /\ cs = <<>> /\ pos = 0 /\ lsum = 0 /\ wsum = 0 /\ zsum = 0
 
 \* ---------------------------------------------------------------- expected bytes of a write op
 \* binary family (bin, binle, unsafe): stateless
@@ -162,16 +163,16 @@ UnsafeR(c, e, n) ==
 Advance == i' = i + 1
 
 TReset == /\ Ev.op = "reset" /\ Ev.err = ""
-          /\ base' = i /\ cs' = <<>> /\ pos' = 0 /\ lsum' = 0 /\ wsum' = 0 /\ Advance
+          /\ base' = i /\ cs' = <<>> /\ pos' = 0 /\ lsum' = 0 /\ wsum' = 0 /\ zsum' = 0 /\ Advance
 
 \* end of a run that sized and then wrote ONE value (emitted size() / encode()): the size reported, the sum of the
 \* length calls and the bytes written are the same number, and a compact object is back in its initial state
-TEnd == /\ Ev.op = "end" /\ Advance /\ UNCHANGED <<base, cs, pos, lsum, wsum>>
+TEnd == /\ Ev.op = "end" /\ Advance /\ UNCHANGED <<base, cs, pos, lsum, wsum, zsum>>
         /\ Ev.size = lsum /\ lsum = wsum
         /\ (P = "compact" => cs = W0)
 
 TInit ==
-  /\ Ev.op = "init" /\ Advance /\ UNCHANGED <<base, pos, lsum, wsum>>
+  /\ Ev.op = "init" /\ Advance /\ UNCHANGED <<base, pos, lsum, wsum, zsum>>
   /\ IF P = "compact" THEN Ev.st = (IF Run.dir = "w" THEN W0 ELSE R0) /\ cs' = Ev.st
      ELSE IF P = "unsafe" THEN /\ Ev.st.index = 0
                                /\ (Run.dir = "r" => Ev.st.translen = Len(Inp) /\ Ev.st.buflen = Len(Inp))
@@ -183,7 +184,10 @@ IsL == SubSeq(Ev.op, 1, 2) = "l_"
 IsR == SubSeq(Ev.op, 1, 2) = "r_"
 
 TWrite ==
-  /\ Ev.op \notin {"reset", "init", "end"} /\ IsW /\ Advance /\ UNCHANGED <<base, pos>> /\ wsum' = wsum + Len(Ev.out)
+  /\ Ev.op \notin {"reset", "init", "end", "wend"} /\ IsW /\ Advance /\ UNCHANGED <<base, pos>> /\ wsum' = wsum + Len(Ev.out)
+  \* a payload at or above the threshold written through a zero-copy capable call onto a zero-copy LinkedBytes is linked in
+  /\ zsum' = IF Ev.op = "w_binary" /\ (IF P = "compact" THEN TakesZcCompact(Buf, Ev.api, Len(Ev.v)) ELSE TakesZc(Buf, Ev.api, Len(Ev.v)))
+              THEN zsum + Len(Ev.v) ELSE zsum
   \* retained unknown fields are sized by their own length, not through a length call of the protocol
   /\ lsum' = IF Ev.op = "w_raw" THEN lsum + Len(Ev.out) ELSE lsum
   /\ IF P = "compact"
@@ -195,14 +199,14 @@ TWrite ==
              ELSE Ev.st = <<>> /\ cs' = cs
 
 TLen ==
-  /\ Ev.op \notin {"reset", "init", "end"} /\ IsL /\ Advance /\ UNCHANGED <<base, pos, wsum>> /\ lsum' = lsum + Ev.ret
+  /\ Ev.op \notin {"reset", "init", "end"} /\ IsL /\ Advance /\ UNCHANGED <<base, pos, wsum, zsum>> /\ lsum' = lsum + Ev.ret
   /\ IF P = "compact"
      THEN LET q == CompactL(cs, Ev) IN q.ok /\ q.n = Ev.ret /\ q.w = Ev.st /\ cs' = q.w
      ELSE /\ LenOfOp(Ev, IsLe) = Ev.ret
           /\ Ev.st = cs /\ cs' = cs              \* a length call never moves the unchecked cursor
 
 TRead ==
-  /\ Ev.op \notin {"reset", "init", "end", "endr", "r_skip", "r_get_bytes"} /\ IsR /\ Advance /\ UNCHANGED <<base, lsum, wsum>>
+  /\ Ev.op \notin {"reset", "init", "end", "endr", "r_skip", "r_get_bytes"} /\ IsR /\ Advance /\ UNCHANGED <<base, lsum, wsum, zsum>>
   /\ IF P = "compact"
      THEN LET q == CompactR(cs, Ev) IN q.ok /\ q.n = Ev.n /\ q.r = Ev.st /\ cs' = q.r /\ pos' = pos + q.n
      ELSE LET q == BinR(Ev) IN
@@ -212,15 +216,19 @@ TRead ==
                   c.ok /\ c.c = Ev.st /\ cs' = c.c /\ UConsumed(Len(Inp), c.c) = pos + q.n
              ELSE Ev.st = <<>> /\ cs' = cs
 
+\* end of a write run: zero_copy_len() is exactly the number of payload bytes that took the zero-copy path
+TWEnd == /\ Ev.op = "wend" /\ Advance /\ UNCHANGED <<base, cs, pos, lsum, wsum, zsum>>
+         /\ Ev.zc = zsum
+
 IsRL == SubSeq(Ev.op, 1, 3) = "rl_"
 TReadLen ==
-  /\ IsRL /\ Advance /\ UNCHANGED <<base, pos, lsum, wsum>>
+  /\ IsRL /\ Advance /\ UNCHANGED <<base, pos, lsum, wsum, zsum>>
   /\ IF P = "compact"
      THEN LET q == CompactRL(cs, Ev) IN q.ok /\ q.n = Ev.ret /\ q.r = Ev.st /\ cs' = q.r
      ELSE BinRL(Ev) = Ev.ret /\ Ev.st = cs /\ cs' = cs
 
 TSkip ==
-  /\ Ev.op = "r_skip" /\ Advance /\ UNCHANGED <<base, lsum, wsum>>
+  /\ Ev.op = "r_skip" /\ Advance /\ UNCHANGED <<base, lsum, wsum, zsum>>
   /\ IF P = "compact" /\ Ev.t = T_BOOL /\ cs.pv # <<>>
      THEN Ev.n = 0 /\ Ev.ret = 0 /\ cs' = [cs EXCEPT !.pv = <<>>, !.pid = <<>>] /\ Ev.st = cs' /\ pos' = pos
      ELSE LET d == SkipEnd(Ev.t) IN
@@ -231,15 +239,15 @@ TSkip ==
 \* get_bytes(Some(ptr), len): a copy of input that was already consumed; nothing is consumed, the compact context does not
 \* move; the unchecked reader re-bases its cursor but its accounting (advanced + index) stays at the model's position
 TGetBytes ==
-  /\ Ev.op = "r_get_bytes" /\ Ev.copy /\ Ev.n = 0 /\ Advance /\ UNCHANGED <<base, pos, lsum, wsum>>
+  /\ Ev.op = "r_get_bytes" /\ Ev.copy /\ Ev.n = 0 /\ Advance /\ UNCHANGED <<base, pos, lsum, wsum, zsum>>
   /\ IF P = "unsafe" THEN UConsumed(Len(Inp), Ev.st) = pos /\ cs' = Ev.st ELSE Ev.st = cs /\ cs' = cs
 
 \* end of an emitted decode: everything up to the trailer was consumed, a compact reader is back in its initial state
-TEndR == /\ Ev.op = "endr" /\ Advance /\ UNCHANGED <<base, cs, pos, lsum, wsum>>
+TEndR == /\ Ev.op = "endr" /\ Advance /\ UNCHANGED <<base, cs, pos, lsum, wsum, zsum>>
          /\ pos = Ev.used
          /\ (P = "compact" => cs = R0)
 
-TraceNext == i <= Len(Rec) /\ (TReset \/ TInit \/ TWrite \/ TLen \/ TRead \/ TEnd \/ TReadLen \/ TSkip \/ TGetBytes \/ TEndR)
+TraceNext == i <= Len(Rec) /\ (TReset \/ TInit \/ TWrite \/ TLen \/ TRead \/ TEnd \/ TReadLen \/ TSkip \/ TGetBytes \/ TEndR \/ TWEnd)
 TraceSpec == TraceInit /\ [][TraceNext]_vars
 
 \* a compact protocol object is back in its initial state whenever a top-level value is complete
